@@ -142,7 +142,10 @@ class Runner:
                 parts = line.rstrip("\n").split("\t")
                 if parts[0] == "FAIL" and len(parts) >= 3:
                     pref = self.cfg.get("oracle_prefixes", [self.prop.lower() + ":"])
-                    if any(parts[1].startswith(p) for p in pref):
+                    if parts[1].startswith("stuck:"):
+                        # the harness watchdog: a scenario of this check's generators never finished
+                        self.oracle_fails.append((self.prop.lower() + ":" + parts[1], parts[2]))
+                    elif any(parts[1].startswith(p) for p in pref):
                         self.oracle_fails.append((parts[1], parts[2]))
                     else:
                         self.stats["other_property_oracle_fails"] = self.stats.get("other_property_oracle_fails", 0) + 1
